@@ -100,6 +100,18 @@ def check_cfg(ctx, fx, cfg):
     ctx.floor("R17.4", "callers of the loop constructors (%s)" % cfg, n_sites, 8)
     check_join(ctx, fx, cfg, "R17.2")
     check_forwarding(ctx, fx, cfg)
+    # R17.5 a pending join must not itself keep the actor alive: nothing erased into JoinFuture<A> owns a mailbox sender or a
+    # strong channel Arc (join resolves when the last strong handle is gone; a join future holding one would wait for itself)
+    import own
+    n_j = 0
+    for key, ent in fx.dyn.items():
+        if key.startswith("dyn core::future::future::Future + [Output=core::option::Option<A>]"):
+            for s in ent["sources"]:
+                n_j += 1
+                o = fx.owns_of(s.get("def"), None) if s.get("def") else None
+                ka = own.keepalive_atoms(o["atoms"]) if o else []
+                ctx.require(o is not None and not ka, "R17.5", "join-future-holds-nothing-strong:%s@%s" % (s.get("def"), cfg), "a join future owns a strong handle (%s): with it pending the actor never sees its last handle dropped" % [a["ty"][:60] for _c, _p, a in ka][:2], fn=s.get("def"), site=(fx.fn(s["def"]) or {}).get("loc") if s.get("def") else None)
+    ctx.floor("R17.5", "futures erased into JoinFuture (%s)" % cfg, n_j, 1)
 
 
 def check_join(ctx, fx, cfg, RULE):
